@@ -112,7 +112,7 @@ CHECKS = {
 ROUND10_TEXT = {
  "C05": " A child process under the race detector runs generic requests, attestations and proposals at the same moment (start barrier, 16 requests per round): every generic signature must be over the request's own (data, domain), never over the caller's data under the domain of a neighbouring attestation or proposal.",
  "C06": " For a single request the short verdict list is the empty list.",
- "C08": " The real-fetcher slice also creates accounts through Dirk at run time (the same account name in two wallets) and signs with them by name and by key.",
+ "C08": " The real-fetcher slice also creates accounts through Dirk at run time (the same account name in two wallets) and signs with them by name and by key. A two-store slice builds the real fetcher over two wallet stores that each hold a wallet of the same name (both store orders, several builds): a request addressed by public key that is answered with a signature must be signed by that key (this found the defect repaired in /repo 8c63492).",
  "C10": " Wrong versions are older and newer ones (4, 3, 6, 15, 50, 51).",
  "C12": " After every generation each participant also signs addressed by the new account's public key (same signature as by name).",
  "C13": " The wire slice ends with forty generations in a row whose contribution the peer refuses with an RPC error: each must end with an error (execute answered), none may leave an account.",
